@@ -31,6 +31,7 @@ import PercevalModel.Lemmas.C16Mat
 import PercevalModel.Lemmas.C16Heap
 import PercevalModel.Lemmas.C16Rpc
 import PercevalModel.Lemmas.C16Add
+import PercevalModel.Lemmas.C16PS
 
 namespace PM.C16
 open PM.SM
@@ -1960,6 +1961,81 @@ theorem thresholded_reaches_the_request (aw : AWorld) (e : Exp) (v : Bool) (he :
   show dget (dset (dset e.params "thresholded" (.bool v)) "min_detected_photons" _) "thresholded" = _
   rw [dget_dset_ne _ _ _ _ (by decide), dget_dset_self]
 
+/-! ## extension 6: the post-selection as a PREDICATE
+
+The session machine carries a post-selection as a symbol `⟨id, perm⟩`.  `Model/C16PS.lean` gives it a meaning: the
+tree of a `PostSelect` with its evaluation on an output state (`PSel.eval`), the relabelling of the conditions'
+modes as `Experiment._compose_experiment` performs it (`apply_permutation(perm_inv.perm_vector)` then
+`shift_modes(c_first)`: `PSel.composePost`), and `Sym.denote`. -/
+
+/-- **relabelled_postselect_reads_relabelled_state.**  Whatever map `f` is applied to the modes of the conditions
+(the native `apply_permutation`, `shift_modes`: each mode list mapped and sorted again), the relabelled
+post-selection decides on a state `t` exactly what the original decides on `s`, as soon as `t` carries on mode
+`f m` what `s` carries on `m` for every mode `m` a condition reads — for every tree (conditions, negations, n-ary
+and / or / xor at any depth), every comparison operator and every state. -/
+theorem relabelled_postselect_reads_relabelled_state (f : Nat → Nat) (s t : List Nat) (x : PSel.Expr)
+    (h : ∀ m ∈ x.modes, t.getD (f m) 0 = s.getD m 0) :
+    PSel.eval (PSel.mapModes f x) t = PSel.eval x s :=
+  PSel.eval_mapModes f s t x h
+
+/-- **converted_postselect_is_user_postselect.**  For every well-formed local processor `p` (heralds anywhere), every
+post-selection `x` (the empty `PostSelect()` included) and every output state `s` of `p`: the post-selection
+`from_local_processor(p)` leaves in the remote processor — the one transmitted — accepts the output state of the
+converted processor that corresponds to `s` (remote mode `j` carries local mode `relabelOf p [j]`: modes of interest
+first, herald modes after them) iff the user's post-selection accepts `s`.  No hypothesis on the modes `x` reads
+(a condition on a mode beyond the circuit counts 0 photons on both sides). -/
+theorem converted_postselect_is_user_postselect (p : Exp) (hp : p.WF) (x : Option PSel.Expr) (s : List Nat)
+    (hs : s.length = p.size) :
+    PSel.evalTop (PSel.convertPost p x) (PSel.relabelState (relabelOf p) s) = PSel.evalTop x s := by
+  cases x with
+  | none => rfl
+  | some x =>
+    exact PSel.composePost_eval p.size (relabelOf p) (relabelOf_isPerm p hp).1 (PSel.mem_relabelOf p) s hs x
+
+/-- the same through a herald: on the corresponding states the herald of the converted processor (`enumHeralds`:
+the `k`-th herald of `p` sits on remote mode `p.m + k`) reads what the local herald mode carries — stated for the
+mode list: remote mode `j` reads local mode `(relabelOf p)[j]`. -/
+theorem relabelled_state_reads_local_mode (p : Exp) (s : List Nat) (j : Nat) (hj : j < (relabelOf p).length) :
+    (PSel.relabelState (relabelOf p) s).getD j 0 = s.getD ((relabelOf p)[j]) 0 := by
+  unfold PSel.relabelState
+  rw [List.getD_eq_getElem?_getD, List.getElem?_map, List.getElem?_eq_getElem hj]
+  rfl
+
+/-- **converted_symbol_denotes_user_predicate.**  The symbol the session machine stores for the post-selection of a
+converted processor (and puts in every payload: `payload_complete`) DENOTES, whatever the user's objects denote
+(`env`), a predicate that accepts the relabelled output state iff the user's object accepts the local one — for
+both variants of the conversion, with or without an input state. -/
+theorem converted_symbol_denotes_user_predicate (fixed : Bool) (p e : Exp) (hp : p.WF) (id : Nat)
+    (hpost : p.post = some ⟨id, []⟩) (he : fromLocal fixed p = .ok e) (env : Nat → Option PSel.Expr)
+    (s : List Nat) (hs : s.length = p.size) :
+    ∃ y, e.post = some y ∧
+      PSel.evalTop (y.denote env) (PSel.relabelState (relabelOf p) s) = PSel.evalTop (env id) s := by
+  have hlen := (relabelOf_isPerm p hp).1
+  refine ⟨⟨id, normPerm (relabelOf p)⟩, by rw [PSel.fromLocal_post fixed p e he, hpost]; rfl, ?_⟩
+  unfold Sym.denote normPerm
+  by_cases hid : isIdentity (relabelOf p) = true
+  · simp only [hid, if_true]
+    rw [PSel.relabelState_identity _ hid s (by rw [hs, hlen])]
+  · have hne : relabelOf p ≠ [] := fun h0 => hid (by rw [h0]; rfl)
+    simp only [hid, Bool.false_eq_true, if_false, hne]
+    cases hx : env id with
+    | none => rfl
+    | some x =>
+      exact PSel.eval_mapModes _ s _ x
+        (fun m _ => PSel.relabelState_applyPerm p.size _ hlen (PSel.mem_relabelOf p) s hs m)
+
+/-- non-vacuity: a processor of 5 modes with heralds on modes 1 and 3, post-selection `[0,2] == 1 & [4] < 2`: the
+transmitted conditions read modes `[0,1]` and `[2]`, and on the local output `|1,1,0,0,1>` both say "accepted" -/
+example :
+    let p : Exp := { m := 3, size := 5, heralds := [(1, 1), (3, 0)], input := none, post := none, noise := none,
+                     filter := none, params := [], circ := ⟨0, []⟩, cparams := [] }
+    let x : PSel.Expr := .nary .and (.cons (.cond [0, 2] .eq 1) (.cons (.cond [4] .lt 2) .nil))
+    p.WF ∧ relabelOf p = [0, 2, 4, 1, 3] ∧
+    (PSel.convertPost p (some x)).map PSel.Expr.conds = some [[0, 1], [2]] ∧
+    PSel.relabelState (relabelOf p) [1, 1, 0, 0, 1] = [1, 0, 1, 1, 0] ∧
+    PSel.evalTop (PSel.convertPost p (some x)) [1, 0, 1, 1, 0] = true ∧ PSel.eval x [1, 1, 0, 0, 1] = true := by
+  decide
+
 /-! ## what is still NOT proved (validated by the correspondence only)
 
 * the matrix reading (`payload_matrix_is_user_matrix`) takes the OWN matrix of every elementary component from the
@@ -1971,9 +2047,12 @@ theorem thresholded_reaches_the_request (aw : AWorld) (e : Exp) (v : Bool) (he :
   remote processor other than the conversion (`add(0, p)` on an empty one), `keep_port=False`, the transfer of the
   local processor's ports by the conversion and herald port names as mapping keys stay C10's.  What the leftover
   routing of a mapped `add` does to heralds / post-selection conditions on modes strictly inside the span is not
-  judged (the code as it is).  The relabelled post-selection symbol is still a symbol (its condition mode sets are
-  known to `astep` only for `can_compose_with`).  "Deserialising yields the same objects" relies on the real
-  decoders (C15).
+  judged (the code as it is).  The post-selection symbol now has a meaning (`Sym.denote`, extension 6): the tree the
+  conversion leaves in the remote processor is proved to decide, on relabelled states, what the user's tree decides;
+  what stays assumed there: the mode mapping of the conversion (`relabelOf`, compared per sample with the circuit and
+  the heralds actually produced), the native `apply_permutation` / `shift_modes` / `merge` / evaluation (exqalibur;
+  compared per sample), and conditions reading a mode BEYOND the circuit (the model counts 0 photons there, the
+  native does not: outside the domain).  "Deserialising yields the same objects" relies on the real decoders (C15).
 * the HTTP layer (`Model/C16Rpc.lean`) stops at the request `requests` is asked to send: redirects, environment
   proxies / netrc, TLS, and what the platform does with the document are outside; `execute_sync` / `__call__` are
   modelled up to the creation request (the status / result GETs that follow are not in the model).
